@@ -333,7 +333,7 @@ mod n {
     fn n_c06_dispatch() {
         drive(
             "C06.dispatch",
-            "Wall::u_value(&Model): wall over 4 boundary kinds x tilt {0,90,180} x adjacent {none, s1, dangling} x construction {ok, not in model, with missing material} x own space {s0, dangling}; s0 / s1 over 3 kinds; s1 ventilation {none, 0.8 1/h}; building ventilation {none, 30 l/s}; s1 bounded by an exterior floor, an exterior wall with a window",
+            "Wall::u_value(&Model): wall over 4 boundary kinds x tilt {0,90,180} x adjacent {none, s1, dangling} x construction {ok, not in model, with missing material} x own space {s0, dangling}; s0 / s1 over 3 kinds; s1 ventilation {none, 0.8 1/h}; building ventilation {none, 30 l/s}; s1 bounded by a slab on the ground and an exterior wall with a window",
             |c| {
                 let b = c.of(&BOUNDS);
                 let tilt = c.of(&[0.0f32, 90.0, 180.0]);
@@ -358,8 +358,8 @@ mod n {
                 let r_cons = 0.25f64 / 0.5 + 0.18;
                 // s0: floor over outside air (so that its area is defined without ground formulas)
                 m.walls.push(wall(1, BoundaryType::EXTERIOR, uid(0xA0), None, uid(0xC0), 180.0, 0.0, rect(4.0, 5.0), None));
-                // s1: floor over outside air 3x5, exterior wall 3x2.5 with a 1x1 window
-                m.walls.push(wall(2, BoundaryType::EXTERIOR, uid(0xA1), None, uid(0xC0), 180.0, 0.0, rect(3.0, 5.0), None));
+                // s1: slab on the ground 3x5, exterior wall 3x2.5 with a 1x1 window
+                m.walls.push(wall(2, BoundaryType::GROUND, uid(0xA1), None, uid(0xC0), 180.0, 0.0, rect(3.0, 5.0), None));
                 m.walls.push(wall(3, BoundaryType::EXTERIOR, uid(0xA1), None, uid(0xC0), 90.0, 0.0, rect(3.0, 2.5), None));
                 m.windows.push(window(0x11, uid(3), uid(0xD0), 1.0, 1.0, None, 0.0));
                 // the wall under contract
@@ -431,7 +431,10 @@ mod n {
                                     let (ua, vol, nv) = if unc_is_s1 {
                                         let u_wall = round2(1.0 / (r_cons + 0.13 + 0.04));
                                         let u_win = round2(1.1 * (0.25 * 2.2 + 0.75 * 1.4));
-                                        (15.0 * u_floor + (7.5 - 1.0) * u_wall + 1.0 * u_win, area1 * hnet1, nv1)
+                                        // the slab of s1 is in contact with the ground: its U comes from the ground formulas,
+                                        // which C06.ground checks on their own; here only the aggregation is under contract
+                                        let u_slab = m.walls[1].u_value(&m).unwrap_or(f32::NAN) as f64;
+                                        (15.0 * u_slab + (7.5 - 1.0) * u_wall + 1.0 * u_win, area1 * hnet1, nv1)
                                     } else {
                                         (20.0 * u_floor, area0 * hnet0, None)
                                     };
@@ -536,13 +539,14 @@ mod n {
     fn n_c06_ground() {
         drive(
             "C06.ground",
-            "Wall::u_value for elements in contact with the ground: basement 8x5, height 3, floor depth z {0,1.5,3.5}; side walls all in contact with ground / two of four adiabatic (exposed perimeter halved); floor construction R {0.5, 2.5}; perimeter insulation (D,Rn) {(0,0),(1,1.5)}; element = slab / long basement wall",
+            "Wall::u_value for elements in contact with the ground: basement 8x5, height 3, floor depth z {0,1.5,3.5}; side walls all in contact with ground / two of four adiabatic (exposed perimeter halved) / all adiabatic (inner core room: finite); floor construction R {0.5, 2.5}; perimeter insulation (D,Rn) {(0,0),(1,1.5)}; element = slab / long basement wall",
             |c| {
                 let depth = c.of(&[0.0f32, 1.5, 3.5]);
-                let half = c.flag();
+                let exposure = c.pick(3); // 0: all four side walls in contact with ground, 1: two of four adiabatic, 2: inner core (none exposed)
+                let half = exposure == 1;
                 let insulated = c.flag();
                 let (d_ins, rn) = c.of(&[(0.0f32, 0.0f32), (1.0, 1.5)]);
-                c.note(format!("z {} half-exposed {} insulated floor {} D {} Rn {}", depth, half, insulated, d_ins, rn));
+                c.note(format!("z {} exposure#{} insulated floor {} D {} Rn {}", depth, exposure, insulated, d_ins, rn));
                 let mut m = empty_model();
                 m.meta.d_perim_insulation = d_ins;
                 m.meta.rn_perim_insulation = rn;
@@ -555,11 +559,21 @@ mod n {
                 let r_floor = if insulated { 2.5f64 } else { 0.5 };
                 let r_wall = 0.5f64;
                 m.walls.push(wall(1, BoundaryType::GROUND, uid(0xA0), None, uid(floor_cons), 180.0, 0.0, rect(8.0, 5.0), None));
-                let side = |b: bool| if b { BoundaryType::ADIABATIC } else { BoundaryType::GROUND };
-                m.walls.push(wall(2, BoundaryType::GROUND, uid(0xA0), None, uid(0xC0), 90.0, 0.0, rect(8.0, 3.0), None));
-                m.walls.push(wall(3, BoundaryType::GROUND, uid(0xA0), None, uid(0xC0), 90.0, 90.0, rect(5.0, 3.0), None));
+                let side = |b: bool| if b || exposure == 2 { BoundaryType::ADIABATIC } else { BoundaryType::GROUND };
+                let front = if exposure == 2 { BoundaryType::ADIABATIC } else { BoundaryType::GROUND };
+                m.walls.push(wall(2, front, uid(0xA0), None, uid(0xC0), 90.0, 0.0, rect(8.0, 3.0), None));
+                m.walls.push(wall(3, front, uid(0xA0), None, uid(0xC0), 90.0, 90.0, rect(5.0, 3.0), None));
                 m.walls.push(wall(4, side(half), uid(0xA0), None, uid(0xC0), 90.0, 180.0, rect(8.0, 3.0), None));
                 m.walls.push(wall(5, side(half), uid(0xA0), None, uid(0xC0), 90.0, -90.0, rect(5.0, 3.0), None));
+                if exposure == 2 {
+                    // a room whose slab has no exposed perimeter at all: the slab still has a finite, small, non-negative U
+                    // and every figure of the model is finite (C14: sane closed models give finite numbers)
+                    let got = m.walls[0].u_value(&m);
+                    c.check("C06.ground.core_room.finite", matches!(got, Some(u) if u.is_finite() && u >= 0.0 && u <= 1.0), || format!("slab of an inner core room: U = {:?}", got));
+                    let ind = m.energy_indicators();
+                    c.check("C14.closed.finite", ind.K_data.K.is_finite() && ind.K_data.ground.au.is_finite(), || format!("K = {} ground A.U = {}", ind.K_data.K, ind.K_data.ground.au));
+                    return;
+                }
                 let (lam, lam_ins, pi) = (2.0f64, 0.035f64, std::f64::consts::PI);
                 let z = depth as f64;
                 let d_t = 0.3 + lam * (0.17 + r_floor + 0.04);
